@@ -664,3 +664,97 @@ def build_jobs(prop, tier):
     elif prop == "C02":
         J.append(DriftJob("fastq", tier))
     return J
+
+
+class MachineDriftJob:
+    """the big-step machine models (FastaMachine): model-check the refinement to ReaderA and compare the private
+    state after every call of every short history with the real reader's verif_snapshot()"""
+
+    FIELDS = ["state", "buf_len", "cap", "start", "search_pos", "seq_pos", "pos_line", "pos_byte"]
+
+    def __init__(self, fmt, tier):
+        self.fmt, self.tier = fmt, tier
+        self.name = "machine-drift-" + fmt
+
+    def run(self, wd):
+        t0 = time.time()
+        spec = "MCFastaMachine"
+        consts = open(os.path.join(vlib.SPEC, "%s_%s.cfg" % (spec, self.tier))).read()
+        alpha = [int(v) for v in re.search(r"Alphabet = \{([^}]*)\}", consts).group(1).split(",")]
+        maxlen = int(re.search(r"MaxLen = (\d+)", consts).group(1))
+        caps = [int(v) for v in re.search(r"Caps = \{([^}]*)\}", consts).group(1).split(",")]
+        limit = int(re.search(r"GrowLimit = (\d+)", consts).group(1))
+        maxops = int(re.search(r"MaxOps = (\d+)", consts).group(1))
+        # the same constants, smaller depth, with the printing invariant
+        snapcfg = os.path.join(wd, "snapmachine.cfg")
+        depth = min(maxops, 2 if self.tier == "quick" else 3)
+        open(snapcfg, "w").write(re.sub(r"MaxOps = \d+", "MaxOps = %d" % depth, consts).replace("INVARIANT Refines", "INVARIANT Emit"))
+        cmd = vlib.java_cmd("6g", serial=False) + ["-workers", "1", "-metadir", os.path.join(wd, "mdsnapm"), "-cleanup", "-noGenerateSpecTE", "-config", snapcfg, spec + ".tla"]
+        env = dict(os.environ)
+        env.pop("JAVA_TOOL_OPTIONS", None)
+        p = subprocess.run(cmd, cwd=vlib.SPEC, env=env, stdout=subprocess.PIPE, stderr=subprocess.STDOUT, text=True, timeout=3600)
+        model = {}
+        for line in p.stdout.splitlines():
+            m = re.search(r'<<"SNAP", "(.*)">>\s*$', line)
+            if m:
+                j = json.loads(vlib.unescape_tla(m.group(1)))
+                model[(tuple(j["x"]), j["cap0"], tuple(j["hist"]))] = j
+        if not model or "No error has been found" not in p.stdout:
+            log(p.stdout[-2000:])
+            raise vlib.ToolError("machine snapshot model produced nothing")
+        ops = [{"o": "next"}, {"o": "set", "s": 0}, {"o": "set", "s": 1}, {"o": "exact", "s": 0, "n": 1}, {"o": "exact", "s": 1, "n": 2},
+               {"o": "exact", "s": 0, "n": 2}, {"o": "seekr", "i": 0}, {"o": "seekr", "i": 1}]
+        s = suite(self.fmt, enum(alpha, maxlen), caps, {"enum": {"ops": ops, "depth": depth, "tails": [{"o": "next"}]}}, chunks=[[0]],
+                  pols=[{"k": "dmax", "a": limit}], slots=2, extra=0)
+        sp = os.path.join(wd, "mdrift_%s.suite.json" % self.fmt)
+        json.dump(s, open(sp, "w"))
+        prefix = os.path.join(wd, "mdrift_%s" % self.fmt)
+        st = vlib.run_harness(["reader", "--suite", sp, "--out", prefix, "--shards", "1", "--seed", "1", "--snap"])
+        compared = diffs = 0
+        examples = []
+        x = cap0 = None
+        hist = []
+        for line in open(prefix + ".0.ndjson"):
+            e = json.loads(line)
+            if e["ev"] == "reset":
+                x, cap0, hist = tuple(e["input"]), e["cap"], []
+            elif e["ev"] == "call":
+                if e["op"] == "seek":
+                    hist.append("seek:%d:%d" % (e["to"][0], e["to"][1]))
+                elif e["op"] == "exact":
+                    hist.append("exact%d" % e["n"])
+                else:
+                    hist.append(e["op"])
+                mj = model.get((x, cap0, tuple(hist)))
+                if mj is None or "snap" not in e:
+                    continue
+                compared += 1
+                bad = [f for f in self.FIELDS if e["snap"].get(f) != mj.get(f)]
+                if bad:
+                    diffs += 1
+                    if len(examples) < 3:
+                        examples.append({"input": list(x), "cap": cap0, "history": list(hist), "fields": bad,
+                                         "model": {f: mj.get(f) for f in bad}, "code": {f: e["snap"].get(f) for f in bad}})
+        notes = []
+        if diffs:
+            notes.append({"file": "mdrift_%s" % self.fmt, "unexplained_runs": diffs, "examples": examples})
+            log("NOTE drift: %d of %d compared calls differ from the big-step machine model, e.g. %s" % (diffs, compared, json.dumps(examples[:1])))
+        log("[machine-drift] %s: %d model states, %d calls compared, %d differ, %.1fs" % (self.fmt, len(model), compared, diffs, time.time() - t0))
+        return {"name": self.name, "kind": "drift", "mismatches": [], "states": 0, "transitions": 0, "traces": st.get("cases", 0), "events": st.get("events", 0),
+                "samples": [{"machine_snapshot": next(iter(model.values()))}], "wall": time.time() - t0, "drift": notes,
+                "snapshots_compared": compared, "snapshots_differ": diffs}
+
+
+def mc_fasta_machine(tier):
+    return McJob("fastamachine", "MCFastaMachine", "MCFastaMachine_" + tier, ["C04"], workers=10, timeout=q(tier, 900, 10800), xmx="10g", coverage=False,
+                 inv_props={"Refines": ["C04", "C05", "C09", "C06"]})
+
+
+_old_build_jobs5 = build_jobs
+
+
+def build_jobs(prop, tier):
+    J = _old_build_jobs5(prop, tier)
+    if prop in ("C04", "C05"):
+        J = [mc_fasta_machine(tier)] + J + [MachineDriftJob("fasta", tier)]
+    return J
